@@ -114,19 +114,16 @@ def opRfa : List String → String
     | _, _, _, _, _, _, _, _, _ => bad
   | _ => bad
 
-def dispatch (line : String) : String :=
-  match (line.trimAscii.toString.splitOn " ").filter (· ≠ "") with
-  | [] => bad
-  | op :: args =>
+def dispatch1 (op : String) (args : List String) : Option String :=
     match op with
-    | "search" => opSearch args
-    | "stretch" => opStretch args
-    | "loop" => opLoop args
-    | "fixed" => opFixed args
-    | "matchref" => opMatchRef args
-    | "rfaparams" => opRfaParams args
-    | "rfawin" => opRfaWin args
-    | "rfa" => opRfa args
-    | _ => bad
+    | "search" => some (opSearch args)
+    | "stretch" => some (opStretch args)
+    | "loop" => some (opLoop args)
+    | "fixed" => some (opFixed args)
+    | "matchref" => some (opMatchRef args)
+    | "rfaparams" => some (opRfaParams args)
+    | "rfawin" => some (opRfaWin args)
+    | "rfa" => some (opRfa args)
+    | _ => none
 
 end TWV.Driver
